@@ -21,7 +21,7 @@ verus! {
 //@  > ReplaceOp
 //@end
 /// opaque collaborators: grammar with its character-class table (C17 decides get_category_types)
-pub struct CharacterCategory { _p: () }
+#[verifier::external_body] pub struct CharacterCategory { _p: () }
 impl CharacterCategory {
     uninterp spec fn sp_cat(&self, c: char) -> CategoryType;
     #[verifier::external_body] fn get_category_types(&self, c: char) -> (r: CategoryType) ensures r == self.sp_cat(c) { unimplemented!() }
@@ -178,6 +178,9 @@ impl InputBuffer {
         proof {
             assert(self.mod_chars@ =~= md);
             let c2b = self.mod_c2b@; let b2c = self.mod_b2c@;
+            // the two sentinels (stated first: a wrong sentinel is then a cheap ground failure, not a divergent quantifier search)
+            assert(c2b.len() == nch + 1 && c2b[nch] == nb);
+            assert(b2c.len() == nb + 1 && b2c[nb] == (if nch > 0 { nch } else { 1int }));
             assert forall|k: int, l: int| 0 <= k < l <= nch implies c2b[k] < c2b[l] by { if l < nch { assert(__ci@[k].0 < __ci@[l].0); } }
             assert forall|x: int| 0 <= x < nb implies (#[trigger] b2c[x]) < nch && c2b[b2c[x] as int] <= x < c2b[b2c[x] + 1] by { }
             assert forall|x: int| 0 <= x < nb && is_char_boundary(sbytes(self.modified), x) implies c2b[#[trigger] b2c[x] as int] == x by {
@@ -215,6 +218,58 @@ impl InputBuffer {
             r == self.original@.len() ==> self.m2o@[self.mod_c2b@[index as int] as int] == sbytes(self.original).len(),
 //@  atstart
         broadcast use axiom_str_len_fits;
+//@end
+//@extract sudachi/src/input_text/buffer/mod.rs :: impl InputTextIndex for InputBuffer :: fn to_orig
+//@  rw R3 1
+//@  ret r
+//@  spec
+        requires buf_ro(*self), range.start <= sbytes(self.modified).len(), range.end <= sbytes(self.modified).len(),
+        ensures r.start == self.m2o@[range.start as int], r.end == self.m2o@[range.end as int],
+//@end
+//@extract sudachi/src/input_text/buffer/mod.rs :: impl InputTextIndex for InputBuffer :: fn orig_slice
+//@  rw R3d 3
+//@  rw R13 1 custom
+//@  | &self\.original\[self\.to_orig\(range\)\]
+//@  > { let __r = self.to_orig(range); str_slice(self.original.as_str(), __r.start, __r.end) }
+//@  ret r
+//@  spec
+        requires
+            buf_ro(*self), range.start <= range.end <= sbytes(self.modified).len(),
+            // (the two dropped debug assertions) the range lies on character boundaries of the rewritten text
+            is_char_boundary(sbytes(self.modified), range.start as int), is_char_boundary(sbytes(self.modified), range.end as int),
+        ensures
+            // C01: the slice of the ORIGINAL text between the images of the two offsets under the offset map
+            self.m2o@[range.start as int] <= self.m2o@[range.end as int] <= sbytes(self.original).len(),
+            r.spec_bytes() == sbytes(self.original).subrange(self.m2o@[range.start as int] as int, self.m2o@[range.end as int] as int),
+//@end
+//@extract sudachi/src/input_text/buffer/mod.rs :: impl InputBuffer :: fn orig_slice_c
+//@  rw R3 1
+//@  rw R13 1 custom
+//@  | &self\.original\[start\.\.end\]
+//@  > str_slice(self.original.as_str(), start, end)
+//@  ret r
+//@  spec
+        requires buf_ro(*self), data.start <= data.end <= self.mod_chars@.len(),
+        ensures
+            self.m2o@[self.mod_c2b@[data.start as int] as int] <= self.m2o@[self.mod_c2b@[data.end as int] as int],
+            r.spec_bytes() == sbytes(self.original).subrange(self.m2o@[self.mod_c2b@[data.start as int] as int] as int, self.m2o@[self.mod_c2b@[data.end as int] as int] as int),
+//@end
+//@extract sudachi/src/input_text/buffer/mod.rs :: impl InputBuffer :: fn curr_slice_c
+//@  rw R3 1
+//@  rw R13 1 custom
+//@  | &self\.modified\[start\.\.end\]
+//@  > str_slice(self.modified.as_str(), start, end)
+//@  ret r
+//@  spec
+        requires buf_ro(*self), data.start <= data.end <= self.mod_chars@.len(),
+        ensures
+            // C13: the text of the characters data.start..data.end of the normalised text
+            r.spec_bytes() == sbytes(self.modified).subrange(self.mod_c2b@[data.start as int] as int, self.mod_c2b@[data.end as int] as int),
+//@  atstart
+        proof {
+            encode_utf8_valid_utf8(self.modified@); is_char_boundary_start_end_of_seq(sbytes(self.modified));
+            if data.start < data.end { assert(self.mod_c2b@[data.start as int] < self.mod_c2b@[data.end as int]); }
+        }
 //@end
 //@extract sudachi/src/input_text/buffer/mod.rs :: impl InputBuffer :: fn to_curr_byte_idx
 //@  rw R3 1
